@@ -11,12 +11,26 @@ use rml_rtmp::handshake::{Handshake, HandshakeProcessResult, PeerType};
 /// Install the RNG seam: bytes come from a private PRNG expanded from one drawn sub-seed;
 /// optionally the digest-offset selector bytes are steered.
 pub fn install_fill(sub_seed: u64, steer: Option<(usize, bool)>) {
+    install_fill_kind(sub_seed, steer, 0)
+}
+
+/// `kind`: 0 = pseudo-random (counting pattern for sub-seed 0), 1 = all zero, 2 = all 0xFF,
+/// 3 = the 8 leading bytes the library itself writes into a packet 1 (time 0 + its version
+/// constant) repeated -- every filling is a legal outcome of the process RNG.
+pub fn install_fill_kind(sub_seed: u64, steer: Option<(usize, bool)>, kind: u64) {
     let mut rng = Rng::new(sub_seed ^ 0xF111);
     let counting = sub_seed == 0;
     let mut counter = 0u8;
+    const HDR: [u8; 8] = [0, 0, 0, 0, 128, 0, 7, 2];
     rml_rtmp::verif_hooks::set_fill_hook(Some(Box::new(move |buf: &mut [u8]| {
-        for b in buf.iter_mut() {
-            if counting {
+        for (i, b) in buf.iter_mut().enumerate() {
+            if kind == 1 {
+                *b = 0;
+            } else if kind == 2 {
+                *b = 0xFF;
+            } else if kind == 3 {
+                *b = HDR[i % 8];
+            } else if counting {
                 *b = counter;
                 counter = counter.wrapping_add(1);
             } else {
@@ -31,6 +45,17 @@ pub fn install_fill(sub_seed: u64, steer: Option<(usize, bool)>) {
             }
         }
     })));
+}
+
+/// The handshake has no clock seam because it reads no clock.  To notice a change that makes it
+/// read one (std::time::Instant, SystemTime), a few runs let a little REAL time pass between
+/// two library calls.  The gap is drawn from the choice stream, so a replay pauses at the same
+/// place; on a tree that reads no clock it cannot influence anything.
+pub fn real_time_gap(ctx: &mut Ctx, one_in: u64) {
+    if ctx.ch.chance("fault.kind", 1, one_in) {
+        std::thread::sleep(std::time::Duration::from_millis(3));
+        ctx.fault("real_time_gap_3ms");
+    }
 }
 
 fn peer_type(role: Role) -> PeerType {
@@ -236,7 +261,11 @@ fn draw_peer_kind(ctx: &mut Ctx) -> PeerKind {
 pub fn run_c05(ctx: &mut Ctx) -> RunResult {
     ctx.world("C");
     let fill = ctx.ch.sub_seed("rng.fill");
-    install_fill(fill, None);
+    let fill_kind = ctx.ch.weighted("rng.fillkind", &[10, 1, 1, 1]) as u64;
+    if fill_kind != 0 {
+        ctx.probe("c.degenerate_rng_fill");
+    }
+    install_fill_kind(fill, None, fill_kind);
     let variant = ctx.ch.weighted("cfg.variant", &[4, 2, 2]);
     let tc = draw_trailing(ctx);
     let ts = draw_trailing(ctx);
@@ -284,6 +313,7 @@ pub fn run_c05(ctx: &mut Ctx) -> RunResult {
             )
         }
     };
+    real_time_gap(ctx, 150);
     let mut c2s = Link::new(Link::draw_mode(ctx));
     let mut s2c = Link::new(Link::draw_mode(ctx));
     // handshake packet boundaries are where the staged parser suspends
@@ -441,13 +471,15 @@ pub fn run_c11(ctx: &mut Ctx) -> RunResult {
     let peer_seed = ctx.ch.sub_seed("bytes.seed");
     let high_peer = ctx.ch.chance("cfg.high", 1, 2);
     let lazy = ctx.ch.chance("op.kind", 1, 2);
-    install_fill(fill, Some((own_offset, high_own)));
+    let own_fill_kind = ctx.ch.weighted("rng.fillkind", &[10, 1, 1, 1]) as u64;
+    install_fill_kind(fill, Some((own_offset, high_own)), own_fill_kind);
     ctx.nontrivial = true;
     ctx.sched(0, (role == Role::Server) as u64, own_offset as u64);
     ctx.sched(0, (peer_scheme == Scheme::ServerPos) as u64, peer_offset as u64);
     ctx.tr(|| format!("  role {:?} own offset {} (high {}) peer scheme {:?} offset {} lazy {}", role, own_offset, high_own, peer_scheme, peer_offset, lazy));
 
     let mut hs = Handshake::new(peer_type(role));
+    real_time_gap(ctx, 40);
     // the 8 leading bytes (time, version) of the peer's packet 1 are free: typical, all zero,
     // zero version, random
     let header = ctx.ch.weighted("cfg.p1header", &[3, 2, 2, 2]) as u64;
@@ -460,7 +492,7 @@ pub fn run_c11(ctx: &mut Ctx) -> RunResult {
         ctx.probe("c11.peer_p1_degenerate_fill");
     }
     let peer_p1 = rh::make_p1_full(role.other(), peer_scheme, peer_offset, high_peer, peer_seed, header, fill_kind);
-    let peer_digest = match rh::verify_p1(&peer_p1, role.other()) {
+    let mut peer_digest = match rh::verify_p1(&peer_p1, role.other()) {
         Some((_, _, d)) => d,
         None => return Err(Violation::new("HARNESS/ref-handshake", "reference p1 does not verify")),
     };
@@ -486,6 +518,16 @@ pub fn run_c11(ctx: &mut Ctx) -> RunResult {
             Ok(b) => b,
             Err(e) => return Err(Violation::new("C11/handshake/error", format!("{:?}", e))),
         };
+        // a relay-style peer may reuse the packet 1 it received as the filling of its own
+        if a.len() == 1 + PKT && ctx.ch.chance("cfg.p1reflect", 1, 8) {
+            ctx.probe("c11.peer_p1_reuses_our_bytes");
+            let reflected = rh::make_p1_from(&a[1..], role.other(), peer_scheme, peer_offset, high_peer);
+            if let Some((_, _, d)) = rh::verify_p1(&reflected, role.other()) {
+                peer_digest = d;
+                input = vec![3u8];
+                input.extend_from_slice(&reflected);
+            }
+        }
         match hs.process_bytes(&input) {
             Ok(HandshakeProcessResult::InProgress { response_bytes }) if response_bytes.len() == PKT => (a, response_bytes),
             other => {
